@@ -129,6 +129,7 @@ var c15Pre = []struct{ src, out string }{
 	{"{let $y} /*c*/ l{/let}{$y}", "l"},
 	{"{call .u /}", "u"},
 	{"{msg desc=\"d\"}", "{/msg}"}, // (index 7: the run is the text of a message; src closes it)
+	{"", ""},                       // (index 8: the run follows a header param declaration)
 }
 
 // H_textlex: a template body of n characters over {a < > space LF CR / * :} (concrete per path)
@@ -161,6 +162,11 @@ func H_textlex(n, ctx int) {
 		// inside a block): they must not influence the text that follows the command
 		src, run, prev = "{namespace n}\n/** @param x */\n{template .t autoescape=\"false\"}\n"+c15Pre[ctx-3].src+body+"{$x}\n{/template}\n"+c15Callee, body, '}'
 		preOut = c15Pre[ctx-3].out
+		if ctx == 11 {
+			// the run directly after a header param declaration (no soydoc)
+			src = "{namespace n}\n{template .t autoescape=\"false\"}\n{@param x: ?}" + body + "{$x}\n{/template}\n"
+			preOut = ""
+		}
 		if ctx == 10 {
 			// the text of a message (tags in it become placeholders and are written back as they are)
 			src = "{namespace n}\n/** @param x */\n{template .t autoescape=\"false\"}\n{msg desc=\"d\"}" + body + "{/msg}{$x}\n{/template}\n"
